@@ -55,6 +55,17 @@ def main():
             if problems:
                 ctx.violation({"shape": key, "expected": {"symbolic": e["symbolic"], "solutions": exp_sols}, "observed": o, "problems": problems},
                               note="call did not bind / run / contribute as Python's binding rule dictates")
+        if "expensive_predicate_on_two_items" in r:
+            o = r["expensive_predicate_on_two_items"]
+            ok = lambda v: v % 3 != 0          # the body of the one-parameter predicate
+            want = {"both_items": sorted([a, b] for a in range(3) for b in range(3) if ok(a) and ok(b)),
+                    "second_item_later": sorted([a, b] for a in range(3) for b in range(3) if ok(b))}
+            key = [c["n"], c["ndef"], c["np"], c["kw"], c["vars"], "expensive_predicate_on_two_items"]
+            ctx.case(key, True, sample={"kind": "expensive_predicate_on_two_items", "observed": o})
+            if o.get("error") or {k: o.get(k) for k in want} != want:
+                ctx.violation({"shape": key, "expected": want, "observed": o},
+                              note="a predicate marked is_expensive applied to two items of one object (in one query and in a later one) "
+                                   "does not contribute the truth value of the concrete call for each item")
     ctx.exhaustive = True
     ctx.assumptions = ["variables range over 0..2", "positional-only and var-positional signatures are only called concretely (symbolic calls re-pass arguments by name: outside the quantifier's (arity, defaults))", "parameters are ints; the body is (p1 + 2*p2 + 3*p3) % 3 != 0"]
     return ctx.finish()
